@@ -21,7 +21,7 @@ through insert_for_record(.., &source) with the record the value was resolved fr
 paired with the matching cache_memory adjustment under the bucket lock and only cache.rs writes cache_memory.
 Not decided: on/off result equality over workloads; CLOCK eviction quality.
 """
-DECIDED = ['every cache hit raises the reference bit the CLOCK sweep reads', "keyed API only from the store", "generation-match guards on hit / remove / overwrite", "invalidate on every replace/remove",
+DECIDED = ['the entry selection predicates of record_entry / remove_entry are pure conjunctions key equality AND generation identity (no other way to true)', 'every cache hit raises the reference bit the CLOCK sweep reads', "keyed API only from the store", "generation-match guards on hit / remove / overwrite", "invalidate on every replace/remove",
            "byte accounting pairing under the bucket lock",
            'expiry is tested before any value tier, the cache included (shared with C11.lazy)',
            'clear() sums and empties a bucket in one critical section',
@@ -66,8 +66,7 @@ def check_keyed(ctx):
     R.callers_within(ctx, inst, "ClockCache::get_for_record", ["FeoxStore::resolve_record_value"], floor=1)
 
 
-def check_match(ctx):
-    inst = "C16.match"
+def check_match(ctx, inst="C16.match"):
     body = ctx.fn("ClockCache::get_entry", inst)
     if body is not None:
         somes = [n.id for n in body.nodes if n.kind == "assign" and not n.ev["dst"]["p"] and n.ev["dst"]["l"] == 0 and n.ev["rv"] == "agg" and n.ev.get("var") == "Some"]
@@ -115,6 +114,10 @@ def check_match(ctx):
             a1 = R.arg_expr(c, c.nodes[pe[0]], 1)
             ctx.check(a0.has_call("Weak::as_ptr") and a1.has_call("Arc::as_ptr"), inst, "SIBLING", c.path, "same identity test as get_entry", c.where(pe[0]))
         pos = ctx.sites(body, R.call("Iterator::position"), inst, exact=1)
+        # (added after C08-i) the whole predicate chain is a conjunction: an entry is selected only if its key equals the key asked
+        # for AND its tag is pointer-identical to the generation asked for. Any other way to `true` (an orphaned tag whose
+        # generation was dropped, a disjunct) hands update_ttl the bytes of a superseded generation to build the next one from.
+        _identity_chain(ctx, inst, body)
     body = ctx.fn("ClockCache::insert_entry", inst)
     if body is not None:
         crg = ctx.sites(body, R.call("cache::can_replace_generation"), inst, exact=1)
@@ -136,6 +139,41 @@ def check_match(ctx):
         for c in cl:
             v = A.tracer(c).node_value(c.defs[0][0]) if len(c.defs.get(0, [])) == 1 else None
         ctx.check(len(cl) == 1, inst, "anchor", body.path, "older-generation closure present", None)
+
+
+def _identity_chain(ctx, inst, body):
+    """every closure of the selection predicate of `body` yields true only through its identity link (ptr::eq, or the
+    is_some_and / is_none_or call that carries the next closure); the outermost one additionally only for an equal key"""
+    cls = list(ctx.prog.closures_of(body))
+    n_links = 0
+    for c in cls:
+        links = [n.id for n in c.calls() if R.call_matches(n.ev, "ptr::eq") or
+                 ((R.call_matches(n.ev, "Option::is_some_and") or R.call_matches(n.ev, "Option::is_none_or")) and
+                  any(x.k == "agg" and str(x.extra).startswith(c.path + "::{closure") for a_ in range(len(n.ev["args"])) for x in R.arg_expr(c, n, a_).walk()))]
+        ctx.check(len(links) == 1, inst, "anchor", c.path, "one identity link per predicate closure (found %d)" % len(links), None)
+        if len(links) != 1:
+            continue
+        n_links += 1
+        conj = [("generation identity", links[0])]
+        if c.path.count("{closure") == 1:
+            keq = [n.id for n in c.calls() if R.call_matches(n.ev, "PartialEq::eq") and
+                   any(R.arg_expr(c, n, a_).has_field("CacheEntry", "key") for a_ in range(len(n.ev["args"])))]
+            ctx.check(len(keq) == 1, inst, "anchor", c.path, "the key of the entry is compared (found %d)" % len(keq), None)
+            if keq:
+                conj.append(("key equality", keq[0]))
+        for d in c.defs.get(0, []):
+            v = A.tracer(c, False).node_value(d)
+            if v.k == "const" and (v.extra or {}).get("val") == 0:
+                continue
+            for (what, call_nid) in conj:
+                if v.k == "call" and v.nid == call_nid:
+                    continue
+                edges = R.guard_edges_for_call(c, [call_nid], "true")
+                r, ps = A.reach(c, [c.entry], blocked_edges=frozenset(edges))
+                good = bool(edges) and d not in r
+                ctx.check(good, inst, "GUARD", c.path, "the selection predicate is true only under " + what + " (no other disjunct)", c.where(d),
+                          None if good else {"value": v.show()[:120], "witness": R.witness(c, ps, r.get(d)) if d in r else None})
+    ctx.check(n_links >= 2, inst, "anchor", body.path, "identity chain found (%d links)" % n_links, None)
 
 
 def check_invalidate(ctx):
